@@ -68,7 +68,29 @@ def isnn_body(msg, name):
         "isNN == status/reserved-bit format rules and plausibility envelope of the register (never raises)"
 
 
-@harness(("C12", "C14"), inputs={"msg": HexStr(28), "mrar": Choice(False, True), "first": Choice(0, 1, 2, 3),
+def sample_infer(rng, fixed):
+    """native sampler for the infer_body cases: payloads built to satisfy the case's register predicates with
+    useful probability (status-gated fields cleared or given small values), first MB byte as the case asks"""
+    first = fixed.get("first", 0)
+    if fixed.get("b50") or fixed.get("b60") or fixed.get("b40"):
+        msg = sample_5060(rng, fixed)["msg"]
+        bits = list(format(int(msg, 16), "0112b"))
+        if fixed.get("b40") and not (fixed.get("b50") or fixed.get("b60")):
+            for k in range(32, 88):
+                bits[k] = "0"
+            bits[32] = "1"                      # MCP altitude status with a small value
+            bits[40] = rng.choice("01")
+    else:
+        bits = [rng.choice("01") for _ in range(112)]
+        bits[0:5] = list(rng.choice(["10100", "10101"]))
+    byte = {1: "00010000", 2: "00100000", 3: "00110000"}.get(first)
+    if byte:
+        bits[32:40] = list(byte)
+    return {"msg": hex_of_bits("".join(bits))}
+
+
+@harness(("C12", "C14"), sampler=sample_infer, native_optional=True,
+         inputs={"msg": HexStr(28), "mrar": Choice(False, True), "first": Choice(0, 1, 2, 3),
                                  "b50": Choice(False, True), "b60": Choice(False, True), "b40": Choice(False, True)},
          functions=["pyModeS.decoder.bds.infer"], body_of=["pyModeS.decoder.bds.infer"], idealised=True)
 def infer_body(msg, mrar, first, b50, b60, b40):
